@@ -12,7 +12,7 @@ hsign parse=<0|1> chan=<0|1> send=<0|1> sf= af= st= nonces= prev=      (the hand
                                                                        messages/calls `ev=sign:ok|sign:fail|send:<n>|reject`)
 unstage
 ```
-Output: result class, for a successful sign the messages signed (`tx=<tid> sigs=key:idx:w:ht:out | key:idx:t:ht`),
+Output: result class, for a successful sign the messages signed (`tx=<tid> sigs=key:idx:w:ht:out | key:idx:t:ht:forOut`),
 for a successful finalize the account rows, then ` pend=<id.tid|-> db=<id.tid|->`.
 -/
 namespace Pool.C05
@@ -96,7 +96,7 @@ def insertByKey (x : Nat × String) : List (Nat × String) → List (Nat × Stri
   | y :: ys => if x.1 < y.1 then x :: y :: ys else y :: insertByKey x ys
 
 def fmtSig (σ : Sig) : Nat × String :=
-  if σ.msg.taproot then (σ.key, s!"{σ.key}:{σ.msg.idx}:t:{σ.msg.ht}")
+  if σ.msg.taproot then (σ.key, s!"{σ.key}:{σ.msg.idx}:t:{σ.msg.ht}:{σ.forOut}")
   else (σ.key, s!"{σ.key}:{σ.msg.idx}:w:{σ.msg.ht}:{σ.msg.spent.headD 0}")
 
 def fmtSigs (sigs : List Sig) : String :=
